@@ -4,7 +4,7 @@ from qverif.core.runner import Job
 META = dict(
     level="proof",
     trusted_base=["CPython ast", "z3 5.1.0 (cvc5 1.0.3 / z3 4.8.12 fallback)", "E1 pyvc VC generator (qverif/pyvc)"],
-    assumptions=[],
+    assumptions=["IEEE doubles treated as exact reals (E2 part)", "regular regime / chosen zero pattern fixed in requires for the distribution contracts"],
     explanation="",
 )
 
@@ -23,7 +23,7 @@ def job_decode(variant, seed=0, timeout_s=10.0):
                   timeout_s=timeout_s, seed=seed, gen_concrete=I.decode_gen)
 
 
-E2_CLASSES = ["contracts.C16_dist:DistRegular", "contracts.C16_dist:DistZeros"]
+E2_CLASSES = ["contracts.C16_dist:DistRegular", "contracts.C16_dist:DistZeros", "contracts.C16_dist:EnsembleLayout"]
 
 
 def jobs(tier, seed):
@@ -34,4 +34,4 @@ def jobs(tier, seed):
           Job("C16/decode-B", "contracts.C16:job_decode", dict(variant="B", seed=seed, timeout_s=t))]
     return js
 
-CLAIM = {'engine': 'E1-pyvc', 'level': 'proof', 'text': 'Deductive proof, unbounded in list length and values, of the serial<->multi-dimensional index maps of quara.utils.index_util: VCs generated from the AST of the real functions with loop invariants over ghost recursive definitions (row-major value, Horner value, suffix products); every VC discharged by z3; refutations replayed on the real function.', 'note': 'Trusted: CPython ast, z3, the E1 VC generator (cross-checked against CPython on random concrete inputs every run). Python ints are mathematical. Distribution-level clauses (marginal / conditional / ensemble layout) are not yet under contract in this check.', 'technique': 'contract-based deductive verification (AST->VC, loop invariants, z3)'}
+CLAIM = {'engine': 'E1-pyvc + E2-symtwin', 'level': 'proof', 'text': 'Deductive proof, unbounded in list length and values, of the serial<->multi-dimensional index maps of quara.utils.index_util: VCs generated from the AST of the real functions with loop invariants over ghost recursive definitions (row-major value, Horner value, suffix products); every VC discharged by z3; refutations replayed on the real function.', 'note': 'Trusted: CPython ast, z3, the E1 VC generator (cross-checked against CPython on random concrete inputs every run). Python ints are mathematical. Distribution-level clauses (constructor thresholds, marginal, conditional, joint = marginal x conditional, ensemble layout) are E2 contracts: all probability tensors per shape (all-inputs@config; shapes up to 3-4 variables).', 'technique': 'contract-based deductive verification (AST->VC, loop invariants, z3)'}
